@@ -115,7 +115,9 @@ def check(tier):
             for mm in confirm(binp, rep["mismatches"], sc, "main"):
                 v.add(mm["signature"], detail(mm))
             rm = fm.result()
-        if rep["cases"] < nsim * depth * 0.5 or rep["nontrivial"] < nsim * depth * 0.2:
+        # behaviours are cut at their first disagreement: few statements without any reproduced
+        # disagreement means the run explored too little (never a verdict)
+        if not v.violations and (rep["cases"] < nsim * depth * 0.5 or rep["nontrivial"] < nsim * depth * 0.2):
             raise lib.Inconclusive("vacuous: %d statements replayed, %d succeeded" % (rep["cases"], rep["nontrivial"]))
         rc = v.finish()
         lib.write_evidence(PID, tier, "model_checking", {
